@@ -192,11 +192,10 @@ namespace igris
         void erase(iterator first, iterator last)
         {
             size_t sz = last - first;
-            for (size_t i = 0; i < sz; ++i)
-            {
-                igris::destructor(first + i);
-            }
-            std::move(last, end(), first);
+            // shift the tail down onto live elements, then destroy what is
+            // left over at the end
+            iterator newend = std::move(last, end(), first);
+            igris::array_destructor(newend, end());
             m_size -= sz;
         }
 
